@@ -222,7 +222,12 @@ def run_centred_targets(ctx: Ctx):
             ctx.violate('C04:training-raises', f'{type(e).__name__}: {e}', case); continue
         left = {cc.name: len(cc.candidate_set) for cc in system.components}
         if any(left.values()):
-            ctx.violate('C04:not-exhausted', f'fit(targets=["y2"]) stopped after {len(system.train_history)} steps with candidates left: {left}', case); continue
+            # recorded finding F8: when the current surrogate of the target is identically zero every relative indicator is NaN and fit() stops
+            y0 = system.predict({'x': np.linspace(-1, 3, 9)}, normalized_inputs=False, index_set='train', targets=['y2'])
+            zero = bool(np.all(np.asarray(y0['y2']) == 0.0))
+            ctx.violate('C04:training-stops-on-identically-zero-surrogate' if zero else 'C04:not-exhausted',
+                        f'fit(targets=["y2"]) stopped after {len(system.train_history)} steps with candidates left: {left}' +
+                        (' (the surrogate of y2 is identically zero, every error indicator is NaN)' if zero else ''), case); continue
         xs = np.linspace(-1, 3, 41)
         y = system.predict({'x': xs}, normalized_inputs=False)
         for j, xv in enumerate(xs):
